@@ -142,6 +142,12 @@ func (dr *DatabaseRecovery) loadWithRetry(primaryPath, personalPath string) (*da
 		}
 	}
 
+	if lastErr == nil {
+		// no attempt was configured (MaxAttempts < 1): report that instead of returning
+		// (nil, nil), so that the caller falls back instead of using a nil database
+		lastErr = fmt.Errorf("database not loaded: retry configuration allows %d attempts", dr.retryConfig.MaxAttempts)
+	}
+
 	return nil, lastErr
 }
 
